@@ -53,7 +53,7 @@ def trunc(v, node):
 
 
 class Machine(object):
-    def __init__(self, fn, fields, args=None, max_steps=4000):
+    def __init__(self, fn, fields, args=None, max_steps=40000):
         self.fn = fn
         self.fields = fields          # name -> value (int) or list (vector member)
         self.locals = {}
@@ -100,13 +100,23 @@ class Machine(object):
         if k == 'DeclRefExpr':
             d = n.get('decl')
             if d in self.locals:
+                if isinstance(self.locals[d], (Ref, list)):
+                    return self.locals[d]       # a reference local / a container passed by pointer or reference
                 return Ref(self.locals, d)
             if 'v' in n:
                 return n['v']
+            if n.get('rk') == 'local':
+                # a local of the enclosing function that is defined once, by an initialiser whose operands are unchanged
+                src = fn.def_expr(x)
+                if src != fn.strip(x, casts=True):
+                    return self.ev(src)
             raise Unknown('reference to %s' % n.get('name'))
         if k == 'MemberExpr':
             if n.get('this') and n.get('name') in self.fields:
                 return Ref(self.fields, n['name']) if not isinstance(self.fields[n['name']], list) else self.fields[n['name']]
+            k2 = fn.key(x)
+            if k2 in self.fields:
+                return Ref(self.fields, k2)
             raise Unknown('member %s' % n.get('name'))
         if k == 'ConditionalOperator':
             return self.ev(n['then'] if self.rv(n['cond']) else n['else'])
@@ -117,6 +127,13 @@ class Machine(object):
                 old = r.get()
                 r.set(trunc(old + (1 if op == '++' else -1), n))
                 return old if n.get('post') else r
+            if op == '*':
+                a = self.rv(n['ch'][0])
+                if isinstance(a, (list, Ref)):
+                    return a
+                raise Unknown('dereference')
+            if op == '&':
+                return self.ev(n['ch'][0])
             a = self.rv(n['ch'][0])
             if op == '-':
                 return trunc(-a, n)
@@ -273,9 +290,28 @@ class Machine(object):
         elif k == 'WhileStmt':
             while self.rv(n['cond']):
                 self.st(n['body'])
+        elif k == 'CXXForRangeStmt':
+            rng = self.ev(n['range'])
+            if not isinstance(rng, list):
+                raise Unknown('range of a range-based for')
+            byref = False
+            for c in n.get('ch', []):
+                cv = fn.nodes[c]
+                if cv['k'] == 'DeclStmt':
+                    for d in cv.get('decls', []):
+                        if d.get('decl') == n.get('loopvar'):
+                            byref = (d.get('t') or '').rstrip().endswith('&')
+            i = 0
+            while i < len(rng):
+                self.locals[n['loopvar']] = Ref(rng, i) if byref else rng[i]
+                self.st(n['body'])
+                i += 1
+                self.steps -= 1
+                if self.steps < 0:
+                    raise Unknown('step limit')
         elif k == 'NullStmt':
             pass
-        elif k in ('ForStmt', 'DoStmt', 'SwitchStmt', 'CXXForRangeStmt', 'CXXTryStmt', 'GotoStmt', 'BreakStmt', 'ContinueStmt'):
+        elif k in ('ForStmt', 'DoStmt', 'SwitchStmt', 'CXXTryStmt', 'GotoStmt', 'BreakStmt', 'ContinueStmt'):
             raise Unknown('statement %s' % k)
         else:
             self.ev(x)
